@@ -377,6 +377,27 @@ def registry_exact(prog: Program, r: RuleResult):
         tables[mname] = tbl
         r.check(good, f"JSONSerializableTypeRegistry.{mname}#lookup", site(gm), src(rets[0].value) if rets else "", "looked up by exactly the given type", "the lookup is not an exact lookup of the given type in one table (table.get(type) / table[type] if type in table else None): "
                 "a registry that answers for subclasses or similar types makes from_json return an object of a different class than the tag names")
+    # the registry keeps what was registered: its tables hold the callables strongly. A weak-valued table forgets a lambda, a closure, a
+    # bound method or a functools.partial as soon as the caller's reference is gone - under reference counting when register() returns
+    weak = ("WeakValueDictionary", "WeakSet", "ref", "WeakMethod", "proxy")
+    for tname in sorted(stores):
+        fname = tname.split(".")[-1]
+        fi = reg.attrs.get(fname)
+        created = []
+        if fi is not None and fi.field_call is not None and fi.field_kw("default_factory") is not None:
+            created.append(fi.field_kw("default_factory"))
+        elif fi is not None and fi.value is not None:
+            created.append(fi.value)
+        for m_ in reg.methods.values():
+            for x in walk_local(m_.node):
+                if isinstance(x, ast.Assign) and any(src(t) == tname for t in x.targets):
+                    created.append(x.value)
+        is_weak = any((dotted(y) or "").split(".")[-1] in weak for c_ in created for y in ast.walk(c_) if isinstance(y, (ast.Name, ast.Attribute)))
+        weak_value = any((dotted(y.func) or "").split(".")[-1] in weak for y in ast.walk(rg.node) if isinstance(y, ast.Call))
+        r.check(bool(created) and not is_weak and not weak_value, f"JSONSerializableTypeRegistry.{fname}#holds-callables-strongly", site(rg), "; ".join(src(c_)[:40] for c_ in created),
+                "the table is an ordinary (strong) mapping",
+                f"{fname} refers to the registered callables weakly: a type registered with a lambda, a closure, a bound method or a partial loses its entry as soon as that callable is "
+                "collected - to_json then raises ClassNotSerializableError for a registered type, from_json ClassNotDeserializableError for text written earlier")
     ser_tbl = next((k for k, (_, v) in stores.items() if v == p[2]), None)
     des_tbl = next((k for k, (_, v) in stores.items() if v == p[3]), None)
     r.check(tables.get("get_serializer") == ser_tbl and tables.get("get_deserializer") == des_tbl and ser_tbl != des_tbl,
